@@ -127,3 +127,34 @@ Example C08_example :
   update_stored_headers (e_hdr stored) (p_hdr r304) =
   [(bs "Cache-Control", [bs "max-age=60"]); (bs "Etag", [bs "b"]); (bs "Content-Length", [bs "3"])].
 Proof. vm_compute. reflexivity. Qed.
+
+(* ---------- the date a freshened or stored response restarts from ---------- *)
+From HC.Proofs Require Import DateProofs.
+
+(* what http.TimeFormat writes, http.ParseTime reads back: every second from 1970-01-01 to 9999-12-31
+   (DateProofs.v: one 400-year era by computation, all others by periodicity; the reader proved on the spelt form) *)
+Theorem C08_date_codec : forall s, 0 <= s < 253402300800 -> parse_http_time (format_imf_fixdate s) = Some s.
+Proof. exact http_time_roundtrip. Qed.
+Print Assumptions C08_date_codec.
+
+(* FixDateHeader: a response (a 304 among them) that arrives without a usable Date is dated by its receipt, to the
+   second — the instant the age of the freshened entry restarts from; a usable Date is left alone *)
+Theorem C08_missing_date_is_receipt : forall h t,
+  0 <= t / second < 253402300800 ->
+  raw_time (hget (bs "Date") h) = None ->
+  date_header (fix_date_header h t) = t / second * second.
+Proof.
+  intros h t Ht Hn. unfold fix_date_header. rewrite Hn. unfold date_header, hget.
+  rewrite hvalues_hset_same. unfold raw_time.
+  rewrite (http_time_roundtrip _ Ht). cbn [option_map].
+  destruct (format_imf_fixdate (t / second)) eqn:E; [|reflexivity].
+  pose proof (http_time_roundtrip _ Ht) as Hp. rewrite E in Hp. discriminate.
+Qed.
+Print Assumptions C08_missing_date_is_receipt.
+
+Theorem C08_usable_date_kept : forall h t d,
+  raw_time (hget (bs "Date") h) = Some d -> d <> go_zero_time -> fix_date_header h t = h.
+Proof.
+  intros h t d Hd Hz. unfold fix_date_header. rewrite Hd. destruct (Z.eqb_spec d go_zero_time); [contradiction|reflexivity].
+Qed.
+Print Assumptions C08_usable_date_kept.
